@@ -11,6 +11,7 @@ import Snmp.Gen.Facts
 import Snmp.Model.Walk
 import Snmp.Lemmas.WalkFaithful
 import Snmp.Lemmas.BulkWalk
+import Snmp.Model.Fault
 import Snmp.Props.C01
 namespace Snmp.Props.C02
 open Snmp Snmp.Walk
@@ -164,6 +165,16 @@ theorem C02_bulk_complete (x : Exchange) (db : List VarBind) (roots : List Oid) 
 theorem C02_policies_conformant (db : List VarBind) (pol : BulkPolicy) :
     ConformantBulk (exchangeOf (Agent.conformant db) db pol) db :=
   exchange_conformantBulk db pol
+
+/-- … and stays one behind any message-size limit: cutting every GETBULK answer — the answers to
+    the fetcher's completion requests too — to its first `n` bindings (at least one) -/
+theorem C02_size_limit_conformant (x : Exchange) (db : List VarBind) (n : Nat) (hx : ConformantBulk x db) :
+    ConformantBulk (Fault.limit x n) db := by
+  constructor
+  intro m cs hcs hm
+  obtain ⟨k, L, hk1, hkm, hL, hresp⟩ := hx.resp m cs hcs hm
+  refine ⟨k, min (max 1 n) L, hk1, hkm, by omega, ?_⟩
+  simp only [Fault.limit, hresp, List.take_take]
 
 /-- **Bulk walk ≡ GETNEXT walk as sets of instances**, each instance once: same agent, same roots,
     any repetition count, any such truncation policy, strict or lenient GETNEXT walk.  Instances
